@@ -4,7 +4,7 @@ from . import rtprop
 THEOREMS = ['FlexVerif.validate_sound', 'FlexVerif.Buf.run_from_init', 'FlexVerif.Buf.refill_spec']
 # functions translated from the generated scanner in this run: no access outside the array is part of what is proved
 TRANSLATED = ['FlexVerif.C03NextBuf.never_out_of_bounds', 'FlexVerif.C03NextBufC99.never_out_of_bounds_c99', 'FlexVerif.C05Stack.never_out_of_bounds', 'FlexVerif.C11Stack.stack_refines',
-              'FlexVerif.C08Unput.unput_spec']
+              'FlexVerif.C08Unput.unput_spec', 'FlexVerif.C11Flush.create_spec', 'FlexVerif.C11FlushC99.create99_spec', 'FlexVerif.C11Flush.delete_spec', 'FlexVerif.C11FlushC99.delete99_spec']
 
 
 def reject_overflow_probe(ctx, results):
@@ -48,13 +48,14 @@ def reject_overflow_probe(ctx, results):
 def run(ctx):
     from . import c03, c05, c08, c11
     for what, regen in (('yy_get_next_buffer()', c03.regen_nextbuf), ('the start-condition stack', c05.regen_startstack),
-                        ('the buffer stack', c11.regen_bufstack), ('yyunput_r()', c08.regen_unput)):
+                        ('the buffer stack', c11.regen_bufstack), ('yyunput_r()', c08.regen_unput),
+                        ('yy_create_buffer() / yy_delete_buffer()', c11.regen_flush)):
         info, err = regen()
         if err:
             ctx.violation('translator of %s gave up: %s' % (what, err), {'error': err}, no_input=True)
     q1, q2, q3 = {'quick': (64, 48, 32), 'thorough': (600, 400, 200)}[ctx.tier]
-    plan = [('buffers', q1, 6), ('include', q2, 6), ('ops', q2, 6), ('unput', q3, 6), ('reject', q3, 6), ('eof', q3, 6), ('lineno', q3, 4), ('deepstack', q3, 4), ('bufreq', q3, 6), ('arraymore', q3, 6)]
+    plan = [('buffers', q1, 6), ('include', q2, 6), ('ops', q2, 6), ('unput', q3, 6), ('reject', q3, 6), ('eof', q3, 6), ('lineno', q3, 4), ('deepstack', q3, 4), ('bufreq', q3, 6), ('arraymore', q3, 6), ('nultail', q3, 4)]
     return rtprop.run(ctx, THEOREMS + TRANSLATED, plan, 'exploration',
-                      "memory safety and release: every runtime case runs on a scanner built with -fsanitize=address,undefined -fno-sanitize-recover (any report is a violation); with the ledger allocator (noyyalloc/noyyrealloc/noyyfree; realloc always moves and poisons) every pointer freed/reallocated must come from the ledger and, after the user's buffers are deleted and yylex_destroy() called, nothing may stay live; a destroyed scanner is reused and destroyed again; emitted tables are bounds-checked for all inputs by the validator's decoders (DState.bad); Buf.run_from_init / refill_spec: in the buffer machine the buffer never holds more than yy_buf_size characters (Inv.fits), and that machine's read requests are compared with the real scanner's (bufreq family); for four pieces of the run time translated from a scanner flex generates in this run - yy_get_next_buffer(), yyunput_r(), the start-condition stack and the buffer stack functions - absence of any access outside the array is proved for all sizes, positions and call sequences (C03NextBuf.never_out_of_bounds, C08Unput.unput_spec, C05Stack.never_out_of_bounds, C11Stack.stack_refines)" + '. Kernel-checked theorems about the abstract scanner (listed under obligations) + differential '
+                      "memory safety and release: every runtime case runs on a scanner built with -fsanitize=address,undefined -fno-sanitize-recover (any report is a violation); with the ledger allocator (noyyalloc/noyyrealloc/noyyfree; realloc always moves and poisons) every pointer freed/reallocated must come from the ledger and, after the user's buffers are deleted and yylex_destroy() called, nothing may stay live; a destroyed scanner is reused and destroyed again; emitted tables are bounds-checked for all inputs by the validator's decoders (DState.bad); Buf.run_from_init / refill_spec: in the buffer machine the buffer never holds more than yy_buf_size characters (Inv.fits), and that machine's read requests are compared with the real scanner's (bufreq family); for five pieces of the run time translated from a scanner flex generates in this run - yy_get_next_buffer(), yyunput_r(), the start-condition stack, the buffer stack functions and yy_create_buffer() - absence of any access outside the array is proved for all sizes, positions and call sequences (C03NextBuf.never_out_of_bounds, C08Unput.unput_spec, C05Stack.never_out_of_bounds, C11Stack.stack_refines), and the character memory of a new buffer is proved to have exactly yy_buf_size + 2 cells (C11Flush.create_spec), and yy_delete_buffer() to release the character memory exactly when it is the scanner's own, then the structure, each once (C11Flush.delete_spec)" + '. Kernel-checked theorems about the abstract scanner (listed under obligations) + differential '
                       'correspondence of the real generated scanner (ASan/UBSan build) with that model on generated cases.',
                       post=reject_overflow_probe)
